@@ -349,6 +349,7 @@ func buildOverlay(hs []*Harness) (map[string][]byte, error) {
 		return nil, err
 	}
 	ov[filepath.Join(*flagRepo, "zzverif", "rt", "rt.go")] = rtSrc
+	renamed := map[string]bool{}
 	for _, h := range hs {
 		for _, f := range h.Overlay {
 			src, err := os.ReadFile(filepath.Join(*flagVerif, "harness", f))
@@ -358,6 +359,10 @@ func buildOverlay(hs []*Harness) (map[string][]byte, error) {
 			ov[filepath.Join(*flagRepo, f)] = src
 		}
 		for _, rn := range h.Rename {
+			if renamed[rn.File+"#"+rn.Func] {
+				continue
+			}
+			renamed[rn.File+"#"+rn.Func] = true
 			p := filepath.Join(*flagRepo, rn.File)
 			src, ok := ov[p]
 			if !ok {
